@@ -355,8 +355,8 @@ func (db *DB) get(in Object) (out Object, err error) {
 	err = unmarshalJsonFile(path, in)
 	out = in
 
-	// we cache the object
-	if s.mustCache() {
+	// we cache the object, only if it could be read
+	if err == nil && s.mustCache() {
 		db.cache.put(out)
 	}
 	return
